@@ -18,6 +18,7 @@ import (
 	"strconv"
 	"strings"
 	"sync"
+	"testing/synctest"
 	"time"
 
 	"github.com/hashicorp/raft"
@@ -536,6 +537,19 @@ func (c *cluster) dump(phase string) {
 			x, _ := strconv.Atoi(string(la))
 			lead = x - 10
 		}
+		if phase == "final" {
+			// drain LeaderCh: 2 = nothing to read, else the last value read
+			lc := 2
+			for more := true; more; {
+				select {
+				case v := <-n.r.LeaderCh():
+					lc = b2i(v)
+				default:
+					more = false
+				}
+			}
+			c.h.rec("LC %d %d %d %d", n.id, n.life, lc, b2i(n.r.State() == raft.Leader))
+		}
 		snapIdx, _ := strconv.Atoi(n.r.Stats()["last_snapshot_index"])
 		c.h.rec("D %s %d %d up %d %d %d %d %d %d %d %d %s %s", phase, n.id, n.life, n.r.CurrentTerm(), int(n.r.State()), n.r.CommitIndex(),
 			n.r.AppliedIndex(), n.r.LastIndex(), lead, snapIdx, cnt, strings.Join(es, " "), intsTok(st))
@@ -546,8 +560,12 @@ func runClusterCase(rng *rand.Rand, thorough bool, out *bufio.Writer, st *stats,
 	if os.Getenv("VERIF_TRACE") != "" {
 		fmt.Fprintln(os.Stderr, "case", caseNo)
 	}
-	if rng.Intn(6) == 0 {
+	switch rng.Intn(8) {
+	case 0:
 		runVerifyLitmus(rng, out, st, caseNo)
+		return
+	case 1:
+		runShutdownLitmus(rng, out, st, caseNo)
 		return
 	}
 	h := &hist{t0: time.Now(), seenS: map[string]bool{}}
@@ -650,6 +668,19 @@ func runClusterCase(rng *rand.Rand, thorough bool, out *bufio.Writer, st *stats,
 					}
 					c.apply(n, "a")
 					c.callWith(n, "t", func(r *raft.Raft) error { return r.LeadershipTransfer().Error() })
+					if rng.Intn(2) == 0 {
+						c.callWith(n, "s", func(r *raft.Raft) error {
+							err := r.Snapshot().Error()
+							if errors.Is(err, raft.ErrNothingNewToSnapshot) {
+								return nil
+							}
+							return err
+						})
+					}
+					// let the calls get part of the way in before the shutdown lands (no virtual time passes)
+					for k, m := 0, rng.Intn(40); k < m; k++ {
+						runtime.Gosched()
+					}
 					st.Hist["calls-racing-shutdown"]++
 				}
 				c.crash(n)
@@ -986,6 +1017,132 @@ func runVerifyLitmus(rng *rand.Rand, out *bufio.Writer, st *stats, caseNo int) {
 	st.Distinct++
 }
 
+// runShutdownLitmus (C17): every kind of call is fired at one server and Shutdown lands while they are
+// part of the way in (a random number of scheduler yields, or a few virtual milliseconds, later).  All
+// calls must resolve and Shutdown() itself must complete; the server is restarted afterwards and the
+// usual end-of-run monitors apply.
+func runShutdownLitmus(rng *rand.Rand, out *bufio.Writer, st *stats, caseNo int) {
+	h := &hist{t0: time.Now(), seenS: map[string]bool{}}
+	nsrv := 3
+	c := &cluster{rng: rng, h: h, blocked: map[[2]int]bool{}, holdMs: map[[2]int]int{}, delayMs: 1 + rng.Intn(3)}
+	_, c.inj = raft.NewInmemTransportWithTimeout("inj", 80*time.Millisecond)
+	c.nodes = []*cnode{nil}
+	var cfg raft.Configuration
+	for i := 1; i <= nsrv; i++ {
+		n := &cnode{id: i, addr: addrOf(i), st: &cstore{InmemStore: raft.NewInmemStore()}, snaps: &snapStore{c: &ctl{failAt: -1, crashAt: -1}}}
+		c.nodes = append(c.nodes, n)
+		cfg.Servers = append(cfg.Servers, raft.Server{Suffrage: raft.Voter, ID: sidOf(i), Address: n.addr})
+	}
+	h.rec("C %d 0", nsrv)
+	for _, n := range c.nodes[1:] {
+		c.startNodeP(n)
+	}
+	_ = c.nodes[1].r.BootstrapCluster(cfg).Error()
+	time.Sleep(500 * time.Millisecond)
+	snapErr := func(r *raft.Raft) error {
+		err := r.Snapshot().Error()
+		if errors.Is(err, raft.ErrNothingNewToSnapshot) {
+			return nil
+		}
+		return err
+	}
+	for round, rounds := 0, 1+rng.Intn(3); round < rounds; round++ {
+		for k, m := 0, 2+rng.Intn(6); k < m; k++ {
+			if l := c.leader(); l != nil {
+				c.apply(l, "a")
+			}
+			time.Sleep(time.Duration(5+rng.Intn(30)) * time.Millisecond)
+		}
+		n := c.nodes[1+rng.Intn(nsrv)]
+		if l := c.leader(); l != nil && rng.Intn(2) == 0 {
+			n = l
+		}
+		if !n.up {
+			continue
+		}
+		if rng.Intn(3) == 0 { // a lagging follower that will be sent a snapshot when it is back in touch
+			if l := c.leader(); l != nil && l != n {
+				c.mu.Lock()
+				c.blocked[[2]int{l.id, n.id}] = true
+				c.blocked[[2]int{n.id, l.id}] = true
+				c.mu.Unlock()
+				for k := 0; k < 4; k++ {
+					c.apply(l, "a")
+					time.Sleep(10 * time.Millisecond)
+				}
+				c.callWith(l, "s", snapErr)
+				time.Sleep(300 * time.Millisecond)
+				c.mu.Lock()
+				c.blocked = map[[2]int]bool{}
+				c.mu.Unlock()
+				time.Sleep(time.Duration(rng.Intn(60)) * time.Millisecond)
+				st.Hist["shutdown-litmus-while-catching-up"]++
+			}
+		}
+		for k, m := 0, 1+rng.Intn(4); k < m; k++ {
+			switch rng.Intn(7) {
+			case 0:
+				c.callWith(n, "s", snapErr)
+			case 1:
+				c.apply(n, "a")
+			case 2:
+				c.apply(n, "b")
+			case 3:
+				c.apply(n, "v")
+			case 4:
+				c.callWith(n, "t", func(r *raft.Raft) error { return r.LeadershipTransfer().Error() })
+			case 5:
+				c.callWith(n, "g", func(r *raft.Raft) error { return r.GetConfiguration().Error() })
+			case 6:
+				c.callWith(n, "s", snapErr)
+				c.callWith(n, "s", snapErr)
+			}
+		}
+		if rng.Intn(3) == 0 {
+			time.Sleep(time.Duration(rng.Intn(4)) * time.Millisecond)
+		} else {
+			for k, m := 0, rng.Intn(60); k < m; k++ {
+				runtime.Gosched()
+			}
+		}
+		c.crash(n)
+		st.Hist["shutdown-litmus"]++
+		// calls on a server that has been shut down
+		c.apply(n, "a")
+		c.apply(n, "v")
+		c.callWith(n, "s", snapErr)
+		time.Sleep(time.Duration(200+rng.Intn(600)) * time.Millisecond)
+		c.startNodeP(n)
+		time.Sleep(time.Duration(200+rng.Intn(600)) * time.Millisecond)
+	}
+	h.rec("Q %d", h.now())
+	time.Sleep(15 * time.Second)
+	for k := 0; k < 3; k++ {
+		if l := c.leader(); l != nil {
+			c.apply(l, "a")
+		}
+		time.Sleep(300 * time.Millisecond)
+	}
+	time.Sleep(2 * time.Second)
+	c.wg.Wait()
+	c.dump("final")
+	c.mu.Lock()
+	c.stopped = true
+	c.mu.Unlock()
+	for _, n := range c.nodes[1:] {
+		if n.up {
+			c.crash(n)
+		}
+	}
+	h.mu.Lock()
+	lines := h.lines
+	h.mu.Unlock()
+	fmt.Fprintf(out, "CL %d %d\n", caseNo, nsrv)
+	fmt.Fprintln(out, strconv.Itoa(len(lines))+" ; "+strings.Join(lines, " ; "))
+	st.Cases++
+	st.Distinct++
+}
+
 // runLeaseCase (C13): (a) isolate the leader completely at instant T and watch when it gives up
 // leadership; (b) a long fault-free stretch in which leadership must not change.
 func runLeaseCase(rng *rand.Rand, out *bufio.Writer, st *stats, caseNo int) {
@@ -1135,8 +1292,15 @@ func runRestoreCase(rng *rand.Rand, out *bufio.Writer, st *stats, caseNo int) {
 	}
 	if l != nil {
 		// writes in flight while the restore runs
-		for k, m := 0, rng.Intn(4); k < m; k++ {
+		m := rng.Intn(4)
+		for k := 0; k < m; k++ {
 			c.apply(l, "a")
+		}
+		if m > 0 && rng.Intn(3) != 0 {
+			// let the leader dispatch them (no virtual time passes, so none is acknowledged yet):
+			// the restore then finds them in flight
+			synctest.Wait()
+			st.Hist[fmt.Sprintf("restore-with-%d-in-flight", m)]++
 		}
 		last := int(l.r.LastIndex())
 		metaIdx := []int{1, last, last + 1 + rng.Intn(5), last / 2}[rng.Intn(4)]
@@ -1144,11 +1308,34 @@ func runRestoreCase(rng *rand.Rand, out *bufio.Writer, st *stats, caseNo int) {
 			metaIdx = 1
 		}
 		var data []int
-		for k, m := 0, rng.Intn(5); k < m; k++ {
+		racing := rng.Intn(4) == 0
+		for k, m := 0, rng.Intn(5); k < m || (racing && k == 0); k++ {
 			data = append(data, 9000+caseNo%100*10+k)
 		}
 		blob := encodeState(data)
 		meta := &raft.SnapshotMeta{Version: 1, ID: "user", Index: uint64(metaIdx), Term: l.r.CurrentTerm(), Size: int64(len(blob))}
+		if racing {
+			// a server (the leader itself or a follower about to be sent the snapshot) is shut down while
+			// the restore is under way, and comes back later
+			victim := c.nodes[1+rng.Intn(nsrv)]
+			viaTime := rng.Intn(2) == 0
+			ms, yields := rng.Intn(30), rng.Intn(200)
+			c.wg.Add(1)
+			go func() {
+				defer c.wg.Done()
+				if viaTime {
+					time.Sleep(time.Duration(ms) * time.Millisecond)
+				} else {
+					for k := 0; k < yields; k++ {
+						runtime.Gosched()
+					}
+				}
+				c.crash(victim)
+				time.Sleep(700 * time.Millisecond)
+				c.startNodeP(victim)
+			}()
+			st.Hist["shutdown-during-restore"]++
+		}
 		t0 := h.now()
 		h.rec("RI %d %d %d", l.id, l.life, t0)
 		err := l.r.Restore(meta, strings.NewReader(string(blob)), 2*time.Second)
